@@ -35,7 +35,69 @@ func callName(e ast.Expr) string {
 	return ""
 }
 
-// kinds of the calls that occur directly in an expression (not inside function literals)
+// file variables of the function being rewritten: results of os.Open/OpenFile/Create, parameters of type *os.File /
+// io.Writer / io.Reader, and anything built from one of them (bufio writers, scanners, snapshotScanner(f), ...)
+var fileVars = map[string]bool{}
+
+var osFS = map[string]bool{"ReadFile": true, "WriteFile": true, "OpenFile": true, "Open": true, "Create": true, "MkdirAll": true,
+	"Mkdir": true, "Remove": true, "RemoveAll": true, "Rename": true, "ReadDir": true, "Truncate": true}
+
+var fileMethods = map[string]bool{"Write": true, "WriteString": true, "Truncate": true, "Read": true, "ReadFrom": true,
+	"WriteTo": true, "Flush": true, "ReadAt": true, "WriteAt": true, "Scan": true, "ReadString": true, "ReadBytes": true, "ReadLine": true}
+
+func usesFileVar(args []ast.Expr) bool {
+	for _, a := range args {
+		if id, ok := a.(*ast.Ident); ok && fileVars[id.Name] {
+			return true
+		}
+	}
+	return false
+}
+
+// collect the file variables of a function (flow-insensitive, two passes for chains like f -> w -> ...)
+func collectFileVars(fn *ast.FuncDecl) {
+	fileVars = map[string]bool{}
+	if fn.Type.Params != nil {
+		for _, fld := range fn.Type.Params.List {
+			ts := fmt.Sprint(fld.Type)
+			var tb bytes.Buffer
+			printer.Fprint(&tb, token.NewFileSet(), fld.Type)
+			ts = tb.String()
+			if ts == "*os.File" || ts == "io.Writer" || ts == "io.Reader" || ts == "*bufio.Scanner" || ts == "*bufio.Writer" || ts == "io.ReadWriter" {
+				for _, n := range fld.Names {
+					fileVars[n.Name] = true
+				}
+			}
+		}
+	}
+	for pass := 0; pass < 3; pass++ {
+		ast.Inspect(fn.Body, func(n ast.Node) bool {
+			as, ok := n.(*ast.AssignStmt)
+			if !ok || len(as.Rhs) != 1 {
+				return true
+			}
+			c, ok := as.Rhs[0].(*ast.CallExpr)
+			if !ok {
+				return true
+			}
+			name := callName(c)
+			// sources: os.Open* / os.Create; propagation: single-result constructors wrapping a file variable
+			// (bufio.NewWriter(f), snapshotScanner(f)); io.ReadAll(f) returns the BYTES (and an error): not a file variable
+			src := name == "os.OpenFile" || name == "os.Open" || name == "os.Create" || (len(as.Lhs) == 1 && usesFileVar(c.Args))
+			if src {
+				if id, ok := as.Lhs[0].(*ast.Ident); ok && id.Name != "_" {
+					fileVars[id.Name] = true
+				}
+			}
+			return true
+		})
+	}
+}
+
+// kinds of the calls that occur directly in an expression (not inside function literals): the four operations on the
+// process-wide RW lock `_m`, and "FS" for ANY operation on the file system - os.* calls, methods of file variables (and of
+// writers / scanners built on them), and library calls that are handed a file variable (fmt.Fprintf(f, ...), io.ReadAll(f)).
+// Which os / io / bufio API the library uses to read or write a file is therefore irrelevant.
 func kindsOf(e ast.Node, inOpenFn bool) []string {
 	var ks []string
 	if e == nil {
@@ -46,41 +108,31 @@ func kindsOf(e ast.Node, inOpenFn bool) []string {
 		case *ast.FuncLit:
 			return false
 		case *ast.CallExpr:
-			switch callName(x) {
+			name := callName(x)
+			switch name {
 			case "_m.RLock":
 				ks = append(ks, "RLock")
+				return true
 			case "_m.RUnlock":
 				ks = append(ks, "RUnlock")
+				return true
 			case "_m.Lock":
 				ks = append(ks, "Lock")
+				return true
 			case "_m.Unlock":
 				ks = append(ks, "Unlock")
-			case "os.ReadFile":
-				ks = append(ks, "Read")
-			case "os.OpenFile":
-				ks = append(ks, "Open")
-			case "os.MkdirAll":
-				ks = append(ks, "Mkdir")
-			case "os.WriteFile":
-				ks = append(ks, "WriteFile")
-			case "os.Remove":
-				ks = append(ks, "Remove")
-			case "os.ReadDir":
-				ks = append(ks, "ReadDir")
-			case "f.Truncate":
-				ks = append(ks, "Trunc")
-			case "f.Write", "f.WriteString":
-				ks = append(ks, "Write")
-			case "fmt.Fprintf", "fmt.Fprint", "fmt.Fprintln":
-				if len(x.Args) > 0 {
-					if id, ok := x.Args[0].(*ast.Ident); ok && id.Name == "f" {
-						ks = append(ks, "Append")
+				return true
+			}
+			if sel, ok := x.Fun.(*ast.SelectorExpr); ok {
+				if id, ok := sel.X.(*ast.Ident); ok {
+					switch {
+					case id.Name == "os" && osFS[sel.Sel.Name]:
+						ks = append(ks, "FS")
+					case fileVars[id.Name] && fileMethods[sel.Sel.Name]:
+						ks = append(ks, "FS")
+					case (id.Name == "fmt" || id.Name == "io") && usesFileVar(x.Args) && !strings.HasPrefix(sel.Sel.Name, "New"):
+						ks = append(ks, "FS")
 					}
-				}
-			default:
-				// buffered writers flushing into the file
-				if sel, ok := x.Fun.(*ast.SelectorExpr); ok && (sel.Sel.Name == "Flush") {
-					ks = append(ks, "Append")
 				}
 			}
 		}
@@ -143,8 +195,8 @@ func rewriteBlock(b *ast.BlockStmt, inOpenFn bool, depth int) {
 				rewriteBlock(eb, inOpenFn, depth+1)
 			}
 		case *ast.ForStmt:
-			if inOpenFn && depth == 0 && isScanLoop(s) {
-				ks = append(ks, "Read") // the file is consumed by this scan loop
+			if isScanLoop(s) && len(kindsOf(s.Cond, inOpenFn)) > 0 {
+				ks = append(ks, "FS") // the file is consumed by this scan loop (one scheduling point, not one per line)
 			}
 			rewriteBlock(s.Body, inOpenFn, depth+1)
 		case *ast.RangeStmt:
@@ -208,6 +260,7 @@ func main() {
 			}
 			var before bytes.Buffer
 			printer.Fprint(&before, fset, fn.Body)
+			collectFileVars(fn)
 			rewriteBlock(fn.Body, hasOpenFile(fn), 0)
 			var after bytes.Buffer
 			printer.Fprint(&after, fset, fn.Body)
